@@ -18,7 +18,9 @@ package absnfs
 
 //@ func NewAttrCache
 //@ prop C21 C24
+//@ modifies lmem, lrank, llen
 //@ ensures [nonnil] result != nil && fresh(result)
+//@ ensures [other-lists] listFrame(result.accessList) && fresh(result.accessList)
 //@ ensures [inv] acInv(result) && len(result.cache) == 0 && !result.enableNegative && result.ttl == ttl && result.maxSize == ite(maxSize <= 0, 10000, maxSize)
 
 //@ func AttrCache.updateAccessLog
